@@ -380,31 +380,12 @@ def id_strategies(ev, extra_worlds=0):
 
 @contextlib.contextmanager
 def fixed_orders_idc(strategy):
-    """as fixed_orders, plus: the keys that get_new_outcomes_and_conditions adds from the set
-    `set(new_event) - set(outcomes) - set(conditions)` are inserted in sorted order (reversed when drev)"""
-    if strategy is None:
+    """as fixed_orders.  (Until `fix:` "IDC* re-associates the merged keys in sorted order" the keys that
+    get_new_outcomes_and_conditions adds from the set `set(new_event) - set(outcomes) - set(conditions)` were inserted in the
+    iteration order of that set and this context manager forced them into sorted / reversed order; the code now sorts them
+    itself by `_variable_sort_key`, so there is no order left to drive: the model uses `orderDistrict false` for `kordf`.)"""
+    with fixed_orders(strategy):
         yield
-        return
-    import importlib
-
-    idc = importlib.import_module("y0.algorithm.identify.idc_star")
-    rev, rot, drev = strategy
-    orig = idc.get_new_outcomes_and_conditions
-
-    def patched(new_event, outcomes, conditions):
-        ro, rc = orig(new_event, outcomes, conditions)
-
-        def reorder(d, base):
-            first = [k for k in d if k in base]
-            rest = sorted([k for k in d if k not in base], key=nx_var_key, reverse=bool(drev))
-            return {k: d[k] for k in first + rest}
-        return reorder(ro, outcomes), reorder(rc, conditions)
-    idc.get_new_outcomes_and_conditions = patched
-    try:
-        with fixed_orders(strategy):
-            yield
-    finally:
-        idc.get_new_outcomes_and_conditions = orig
 
 
 def rand_event_pair(rng: random.Random, g, max_worlds=2):
